@@ -6,7 +6,7 @@
  'inject': [
    {'file': 'compat/libc/stdlib/bsearch.c', 'func': 'bsearch', 'ghost': 'g_bl = 0; g_bd = nmemb; g_sr_idx = 0;', 'at': 'func-begin'},
    {'file': 'compat/libc/stdlib/bsearch.c', 'func': 'bsearch', 'ghost': 'g_bm = g_bl + (g_bd >> 1); g_sr_idx = g_bm;',
-    'at': 'after', 'anchor': 'mid = left + ((right - left) / (size << 1) * size);'},
+    'at': 'after', 'anchor_re': r'\bmid\s*=[^;=][^;]*;'},
    {'file': 'compat/libc/stdlib/bsearch.c', 'func': 'bsearch', 'ghost': 'if (right == mid) { g_bd = g_bd >> 1; } else { g_bd = g_bd - (g_bd >> 1); g_bl = g_bm; } g_sr_idx = g_bl;',
     'at': 'body-end', 'loop': 0},
  ],
